@@ -95,8 +95,20 @@ pub struct Sparse {
     pub last: u32,
 }
 
+/// a pre-existing file in the root directory of a procedural volume: BIG.BIN, `len` consecutive clusters from `start`
+#[derive(Clone, Copy, Debug)]
+pub struct BigFile {
+    pub start: u32,
+    pub len: u32,
+    pub size: u32,
+}
+
 /// procedural FAT32 volume: every cluster bad except `free` (and the root cluster 2)
 pub fn sparse(shape: &Shape, free: &[u32], hint: u32, name: &str) -> Sparse {
+    sparse_with(shape, free, hint, name, None)
+}
+
+pub fn sparse_with(shape: &Shape, free: &[u32], hint: u32, name: &str, big: Option<BigFile>) -> Sparse {
     let bps = shape.bps as u64;
     let spc = shape.spc as u64;
     let reserved = 32u64;
@@ -160,6 +172,8 @@ pub fn sparse(shape: &Shape, free: &[u32], hint: u32, name: &str) -> Sparse {
     let fat_bytes = spf * bps;
     let vol_end = total * bps;
     let last = (clusters + 1) as u32;
+    let data_start = (reserved + nfats * spf) * bps;
+    let big_slot = big.map(|b| harness::builder::sfn_slot(b"BIG     BIN", 0x20, 0, harness::builder::Times::default(), b.start, b.size));
     let f = move |pno: u64, out: &mut [u8; 512]| {
         let off = pno * 512;
         if off >= vol_end {
@@ -175,6 +189,12 @@ pub fn sparse(shape: &Shape, free: &[u32], hint: u32, name: &str) -> Sparse {
             out.copy_from_slice(&fsinfo);
             return;
         }
+        if off == data_start {
+            if let Some(slot) = &big_slot {
+                out[..32].copy_from_slice(slot);
+            }
+            return;
+        }
         if off >= fat_start && off < fat_start + nfats * fat_bytes {
             let rel = (off - fat_start) % fat_bytes;
             let e0 = rel / 4;
@@ -188,6 +208,12 @@ pub fn sparse(shape: &Shape, free: &[u32], hint: u32, name: &str) -> Sparse {
                     0x0FFF_FFFF
                 } else if e > last as u64 {
                     0
+                } else if let Some(b) = big.filter(|b| e >= b.start as u64 && e < b.start as u64 + b.len as u64) {
+                    if e + 1 == b.start as u64 + b.len as u64 {
+                        0x0FFF_FFFF
+                    } else {
+                        e as u32 + 1
+                    }
                 } else if free_sorted.binary_search(&(e as u32)).is_ok() {
                     0
                 } else {
